@@ -51,6 +51,8 @@ module Nat :
   val eqb : nat -> nat -> bool
 
   val leb : nat -> nat -> bool
+
+  val min : nat -> nat -> nat
  end
 
 module Pos :
@@ -224,6 +226,8 @@ val from_i16 : z -> z -> z
 
 val try_into_i16 : z -> z -> z option
 
+val append : positive -> positive -> positive
+
 module PositiveMap :
  sig
   type key = positive
@@ -239,6 +243,10 @@ module PositiveMap :
   val find : key -> 'a1 t -> 'a1 option
 
   val add : key -> 'a1 -> 'a1 t -> 'a1 t
+
+  val xelements : 'a1 t -> key -> (key * 'a1) list
+
+  val elements : 'a1 t -> (key * 'a1) list
  end
 
 type event =
@@ -638,3 +646,26 @@ val ir_step : z -> env -> bool -> ircfg -> istep_res
 val ir_steps : z -> env -> bool -> nat -> ircfg -> irst outcome
 
 val ir_machine_run : z -> env -> bool -> z -> nat -> block -> irst outcome
+
+val cmd_eqb : cmd -> cmd -> bool
+
+val cmds_eqb : cmd list -> cmd list -> bool
+
+val kont_eqb :
+  (cmd list * cmd list) list -> (cmd list * cmd list) list -> bool
+
+val tgetp : tmap -> positive -> z
+
+val tmap_sub : tmap -> tmap -> bool
+
+val tmap_eqb : tmap -> tmap -> bool
+
+val eff_in_pos : env -> bfst -> nat
+
+val cfg_equiv : env -> bfcfg -> bfcfg -> bool
+
+val bf_cfg_after : z -> env -> nat -> bfcfg -> bfcfg option
+
+val env_fault_free : env -> bool
+
+val cert_ok : z -> env -> cmd list -> nat -> nat -> bool
